@@ -179,16 +179,6 @@ impl RoaringBitmap {
     pub fn min(&self) -> (r: Option<u32>) ensures match r { Some(m) => set_min(self@, m), None => self@ =~= Set::<u32>::empty() } { unimplemented!() }
     #[verifier::external_body]
     pub fn max(&self) -> (r: Option<u32>) ensures match r { Some(m) => set_max(self@, m), None => self@ =~= Set::<u32>::empty() } { unimplemented!() }
-    /// select(0) is the minimum
-    #[verifier::external_body]
-    pub fn select(&self, n: u32) -> (r: Option<u32>)
-        ensures n == 0 ==> (match r { Some(m) => set_min(self@, m), None => self@ =~= Set::<u32>::empty() })
-    { unimplemented!() }
-    #[verifier::external_body]
-    pub fn remove_smallest(&mut self, n: u64)
-        ensures n == 1 ==> ((old(self)@ =~= Set::<u32>::empty() ==> final(self)@ == old(self)@)
-            && (forall|m: u32| set_min(old(self)@, m) ==> final(self)@ == old(self)@.remove(m)))
-    { unimplemented!() }
     // rule R4 targets
     #[verifier::external_body]
     pub fn sub_assign_(&mut self, other: &RoaringBitmap) ensures final(self)@ == old(self)@.difference(other@) { unimplemented!() }
@@ -558,6 +548,9 @@ impl BuildOption {
     pub fn cancelled(&self) -> (r: Result<(), Error>)
         ensures r matches Err(e) ==> e == Error::BuildCancelled
     { unimplemented!() }
+    /// rule R5d target: a direct poll `(opt.cancel)()` of the user's callback: any answer
+    #[verifier::external_body]
+    pub fn cancel_poll_(&self) -> (r: bool) { unimplemented!() }
 }
 
 pub struct PathBuf { pub x: u8 }
